@@ -13,13 +13,18 @@
 //   pred LO HI [extra...]      print `pred c solved solvedOrFeas indiff infOrUnb infeasible unbounded retrieved`
 //                              for every code LO..HI and the extra codes
 //   table                      run the driver with `-!` (prints the solve result table on stdout)
-//   report STUB [options]      read lines `code nobj primal dual [nalt]` on stdin (nalt = intermediate/pool solutions the
+//   report STUB [options]      (option `@noampl`: run without -AMPL but with wantsol=1 and capture what the driver prints;
+//                              input field 6 `flags`: 1 original objective available (feasrelax), 2 backend adds a message line,
+//                              4 intermediate solutions without objective value, 16 fractional primal values)
+//                              read lines `code nobj primal dual [nalt [flags]]` on stdin (nalt = intermediate/pool solutions the
 //                              scripted solver has; reported through ReportIntermediateSolution iff need_multiple_solutions(),
 //                              written to <solstub>N.sol iff option sol:stub=<solstub> is among the options; output then has
 //                              nalt=<#numbered files> altcodes=<their objno codes> hfs=<codes passed to HandleFeasibleSolution>); for each, run the complete
 //                              driver (-AMPL) on STUB.nl, re-read STUB.sol and print
 //                              `report code nobj primal dual | objShown=<0/1> objValText=<0/1: the scripted value 4242.5 is printed> code=<objno code> nx=<#primal> ny=<#dual> hs=<code passed to HandleSolution> hsobj=<nan|val> nobjpost=<#objective values after postsolve>`
 #include <cstdio>
+#include <unistd.h>
+#include <fcntl.h>
 #include <cstdlib>
 #include <cstring>
 #include <cmath>
@@ -48,6 +53,8 @@ struct Script {
   std::string hs_msg;
   long nobj_post = -1;      // sol.objvals.size() as ReportSolution2AMPL sees it (after postsolve)
   int nalt = 0;             // number of intermediate / pool solutions the "solver" has
+  int flags = 0;            // 1: original objective available (feasrelax)  2: backend adds a line to the solve message
+                            // 4: intermediate solutions carry no objective value  16: fractional primal values (rounding)
   bool need_multi = false;  // need_multiple_solutions() at report time
   std::vector<int> hfs_codes;   // codes passed to HandleFeasibleSolution
 } g;
@@ -84,7 +91,13 @@ public:
   std::string set_external_libs() override { return ""; }
   static const char* GetBackendName() { return "C10Backend"; }
   static const char* GetBackendLongName() { return nullptr; }
-  void InitCustomOptions() override { }
+  void InitCustomOptions() override {
+    // custom result codes as real drivers register them (shown by -!)
+    AddSolveResults({ { sol::LIMIT_FEAS_NEW + 1, "c10 custom limit, feasible solution" },
+                      { sol::LIMIT_NO_FEAS_NEW + 1, "c10 custom limit, no feasible solution" },
+                      { sol::FAILURE + 1, "c10 custom failure" },
+                      { sol::UNBOUNDED_NO_FEAS, "c10 custom code at the start of a range" } });
+  }
   void InitOptionParsing() override { }
   void FinishOptionParsing() override { }
 
@@ -92,16 +105,30 @@ public:
   ALLOW_STD_FEATURE(MULTISOL, true)
   ALLOW_STD_FEATURE(MULTIOBJ, true)
   void ObjPriorities(ArrayRef<int>) override { }
+  ALLOW_STD_FEATURE(KAPPA, true)
+  double Kappa() override { return 7.5; }
+  ALLOW_STD_FEATURE(FEAS_RELAX, true)
+  ALLOW_STD_FEATURE(RAYS, true)
+  ArrayRef<double> Ray() override { return std::vector<double>(NumVars(), 1.0); }
+  ArrayRef<double> DRay() override { return std::vector<double>(NumLinCons(), 1.0); }
+  ALLOW_STD_FEATURE(IIS, true)
+  void ComputeIIS() override { }
+  IIS GetIIS() override { return { std::vector<int>(NumVars(), 1), std::vector<int>(NumLinCons(), 1) }; }
 
   bool IsMIP() const override { return getIntAttr(Solver::NVARS_INT) > 0; }
   bool IsQCP() const override { return false; }
   void SetInterrupter(mp::Interrupter*) override { }
-  void Solve() override { }
+  void Solve() override {
+    if (feasrelax() && (g.flags & 1)) {       // a feasrelax-capable solver also returns the original objective
+      feasrelax().flag_orig_obj_available();
+      feasrelax().orig_obj_value() = 99.5;
+    }
+  }
 
   // scripted solver answers
   ArrayRef<double> PrimalSolution() override {
     if (!g.primal) return std::vector<double>{};
-    return std::vector<double>(NumVars(), 1.0);
+    return std::vector<double>(NumVars(), (g.flags & 16) ? 1.25 : 1.0);
   }
   pre::ValueMapDbl DualSolution() override {
     if (!g.dual) return {};
@@ -122,11 +149,12 @@ public:
     SetStatus({ g.code, kStatusText });
     // the solution pool, as real drivers do it (GurobiBackend::ReportGurobiPool, VisitorBackend::ReportVISITORPool):
     // after the status is known, before the final report, only if the user asked for multiple solutions
+    if (g.flags & 2) AddToSolverMessage("c10 extra message line\n");
     g.need_multi = need_multiple_solutions();
     if (g.need_multi)
       for (int i = 0; i < g.nalt; ++i)
-        ReportIntermediateSolution({ std::vector<double>(NumVars(), 1.0), std::vector<double>(NumLinCons(), 0.5),
-                                     std::vector<double>(1, kObjVal) });
+        ReportIntermediateSolution({ std::vector<double>(NumVars(), (g.flags & 16) ? 1.25 : 1.0), std::vector<double>(NumLinCons(), 0.5),
+                                     (g.flags & 4) ? std::vector<double>{} : std::vector<double>(1, kObjVal) });
     Base::ReportResults();          // StdBackend::ReportResults: ReportSuffixes + ReportSolution
   }
   // observation point 1: what ReportSolution2AMPL passes on
@@ -179,7 +207,7 @@ static std::string rstrip(std::string t) {
 }
 
 // parse what the real writer put into STUB.sol
-struct SolInfo { bool ok = false; std::string msg; int objno = -1, code = -99999; long nx = -1, ny = -1; std::string err; };
+struct SolInfo { bool ok = false; std::string msg; int objno = -1, code = -99999; long nx = -1, ny = -1; std::string err; std::string sufs; };
 static SolInfo ReadSol(const std::string& path) {
   SolInfo r;
   std::ifstream f(path);
@@ -209,6 +237,16 @@ static SolInfo ReadSol(const std::string& path) {
   r.nx = nx; r.ny = ny;
   if (i >= L.size()) { r.err = "noobjno"; return r; }
   if (std::sscanf(L[i].c_str(), "objno %d %d", &r.objno, &r.code) != 2) { r.err = "badobjno:" + L[i]; return r; }
+  // suffix blocks: `suffix <kind> <n> <namelen> <tablen> <tablines>` / name / [table lines] / n value lines
+  for (++i; i < L.size(); ) {
+    int kind, n, nl, tl, tn;
+    if (std::sscanf(L[i].c_str(), "suffix %d %d %d %d %d", &kind, &n, &nl, &tl, &tn) != 5) { ++i; continue; }
+    if (i + 1 < L.size()) {
+      static const char* kn[] = { "var", "con", "obj", "prob" };
+      r.sufs += (r.sufs.empty() ? "" : ",") + std::string(kn[kind & 3]) + "." + L[i + 1];
+    }
+    i += 2 + tn + n;
+  }
   r.ok = true;
   return r;
 }
@@ -234,9 +272,11 @@ int main(int argc, char** argv) {
     std::string objtxt;
     { std::ostringstream o; o << "objective " << kObjVal; objtxt = o.str(); }
     while (std::getline(std::cin, line)) {
-      int code, nobj, pr, du, nalt = 0;
-      if (std::sscanf(line.c_str(), "%d %d %d %d %d", &code, &nobj, &pr, &du, &nalt) < 4) { std::printf("bad-input %s\n", line.c_str()); continue; }
-      g = Script(); g.code = code; g.nobj = nobj; g.primal = pr; g.dual = du; g.nalt = nalt;
+      int code, nobj, pr, du, nalt = 0, flags = 0;
+      if (std::sscanf(line.c_str(), "%d %d %d %d %d %d", &code, &nobj, &pr, &du, &nalt, &flags) < 4) { std::printf("bad-input %s\n", line.c_str()); continue; }
+      g = Script(); g.code = code; g.nobj = nobj; g.primal = pr; g.dual = du; g.nalt = nalt; g.flags = flags;
+      bool noampl = false;
+      for (int i = 3; i < argc; ++i) if (!std::strcmp(argv[i], "@noampl")) noampl = true;
       std::remove((stub + ".sol").c_str());
       std::string solstub;                       // value of option sol:stub, if given
       for (int i = 3; i < argc; ++i)
@@ -245,16 +285,30 @@ int main(int argc, char** argv) {
         for (int k = 1; k <= nalt + 3; ++k) std::remove((solstub + std::to_string(k) + ".sol").c_str());
       std::vector<std::vector<char>> store;
       auto add = [&store](const std::string& t) { store.emplace_back(t.begin(), t.end()); store.back().push_back(0); };
-      add("c10backend"); add(stub); add("-AMPL");
-      for (int i = 3; i < argc; ++i) add(argv[i]);          // extra solver options
+      add("c10backend"); add(stub);
+      std::string wantsol = "wantsol=1";
+      for (int i = 3; i < argc; ++i) if (!std::strncmp(argv[i], "@wantsol=", 9)) wantsol = argv[i] + 1;
+      if (noampl) add(wantsol); else add("-AMPL");     // @noampl: command-line use, message printed on stdout
+      for (int i = 3; i < argc; ++i) if (argv[i][0] != '@') add(argv[i]);          // extra solver options
       std::vector<char*> av;
       for (auto& v : store) av.push_back(v.data());
       av.push_back(nullptr);
       std::fflush(stdout);
+      int saved = -1; std::string capfile = stub + ".stdout";
+      if (noampl) {                                          // capture what the driver prints
+        saved = dup(1);
+        int fd = open(capfile.c_str(), O_CREAT | O_TRUNC | O_WRONLY, 0644);
+        dup2(fd, 1); close(fd);
+      }
       int rc = mp::RunBackendApp(av.data(), Create);
       std::fflush(stdout);
+      std::string captured;
+      if (noampl) {
+        dup2(saved, 1); close(saved);
+        std::ifstream cf(capfile); std::stringstream ss; ss << cf.rdbuf(); captured = ss.str();
+      }
       SolInfo si = ReadSol(stub + ".sol");
-      if (!si.ok) { std::printf("\nreport %d %d %d %d %d | sol-unreadable %s rc=%d\n", code, nobj, pr, du, nalt, si.err.c_str(), rc); continue; }
+      if (!si.ok) { std::printf("\nreport %d %d %d %d %d %d | sol-unreadable %s rc=%d\n", code, nobj, pr, du, nalt, flags, si.err.c_str(), rc); continue; }
       // the numbered files <solstub>1.sol, <solstub>2.sol, ... written through ReportIntermediateSolution
       std::string altcodes = "", hfs = "";
       int nfiles = 0, altstatus = 1;
@@ -267,6 +321,21 @@ int main(int argc, char** argv) {
           if (a.msg.find("Alternative solution") == std::string::npos) altstatus = 0;
         }
       for (int c : g.hfs_codes) hfs += (hfs.empty() ? "" : ",") + std::to_string(c);
+      // the message printed on stdout (command-line use) = message of the .sol file without the "<name>: " banner
+      int stdoutmsg = -1, stdoutobj = -1;
+      if (noampl) {
+        std::string body = rstrip(si.msg);
+        size_t colon = body.find(": ");
+        if (colon != std::string::npos) body = body.substr(colon + 2);
+        stdoutmsg = rstrip(captured).find(body) != std::string::npos;
+        stdoutobj = captured.find("; objective ") != std::string::npos;
+      }
+      bool fr = si.msg.find("; feasrelax objective ") != std::string::npos;
+      bool orig = si.msg.find("Original objective = 99.5") != std::string::npos;
+      bool kappamsg = si.msg.find("kappa value: 7.5") != std::string::npos;
+      bool extra = si.msg.find("c10 extra message line") != std::string::npos;
+      bool roundmsg = si.msg.find("rounded to integer") != std::string::npos;
+      bool altrange = si.msg.find("with objective values") != std::string::npos;
       // "objective <value>" is written by ReportSolution2AMPL as "; objective {}" / "; feasrelax objective {}"
       bool shown = si.msg.find("; objective ") != std::string::npos || si.msg.find("; feasrelax objective ") != std::string::npos;
       bool shownval = si.msg.find(objtxt) != std::string::npos;
@@ -274,11 +343,13 @@ int main(int argc, char** argv) {
       bool statusShown = si.msg.find(kStatusText) != std::string::npos;
       char hsobj[64];
       if (std::isnan(g.hs_obj)) std::strcpy(hsobj, "nan"); else std::snprintf(hsobj, sizeof hsobj, "%.17g", g.hs_obj);
-      std::printf("\nreport %d %d %d %d %d | objShown=%d objValText=%d anyObjWord=%d status=%d code=%d objno=%d nx=%ld ny=%ld hs=%d hsobj=%s hsx=%d hsy=%d samemsg=%d nobjpost=%ld multi=%d nalt=%d altcodes=%s hfs=%s altmsg=%d rc=%d\n",
-                  code, nobj, pr, du, nalt, (int)shown, (int)shownval, (int)anyobj, (int)statusShown, si.code, si.objno, si.nx, si.ny,
+      std::printf("\nreport %d %d %d %d %d %d | objShown=%d objValText=%d anyObjWord=%d status=%d code=%d objno=%d nx=%ld ny=%ld hs=%d hsobj=%s hsx=%d hsy=%d samemsg=%d nobjpost=%ld multi=%d nalt=%d altcodes=%s hfs=%s altmsg=%d fr=%d orig=%d kappamsg=%d extra=%d roundmsg=%d altrange=%d stdoutmsg=%d stdoutobj=%d sufs=%s rc=%d\n",
+                  code, nobj, pr, du, nalt, flags, (int)shown, (int)shownval, (int)anyobj, (int)statusShown, si.code, si.objno, si.nx, si.ny,
                   g.hs_called ? g.hs_code : -12345, hsobj, (int)g.hs_x, (int)g.hs_y,
                   (int)(rstrip(si.msg) == rstrip(g.hs_msg)), g.nobj_post, (int)g.need_multi, nfiles,
-                  altcodes.empty() ? "-" : altcodes.c_str(), hfs.empty() ? "-" : hfs.c_str(), altstatus, rc);
+                  altcodes.empty() ? "-" : altcodes.c_str(), hfs.empty() ? "-" : hfs.c_str(), altstatus,
+                  (int)fr, (int)orig, (int)kappamsg, (int)extra, (int)roundmsg, (int)altrange, stdoutmsg, stdoutobj,
+                  si.sufs.empty() ? "-" : si.sufs.c_str(), rc);
     }
     return 0;
   }
